@@ -200,14 +200,9 @@ class DataFrameSchemaBackend(PandasSchemaBackend):
         check_passed = []
         # schema-component-level checks
         for schema_component in schema_components:
-            # make sure the schema component mutations are reverted after
-            # validation
-            _orig_dtype = schema_component.dtype
-            # MultiIndex.coerce is derived from its levels: save the flag that the
-            # setter writes, not the derived value
-            _orig_coerce = getattr(
-                schema_component, "_coerce", schema_component.coerce
-            )
+            # work on a copy so that the overrides below are never
+            # visible to other validations that share this schema
+            schema_component = copy.deepcopy(schema_component)
 
             try:
                 if schema.dtype is not None:
@@ -244,10 +239,6 @@ class DataFrameSchemaBackend(PandasSchemaBackend):
                         for schema_error in err.schema_errors
                     ]
                 )
-            finally:
-                # revert the schema component mutations
-                schema_component.dtype = _orig_dtype
-                schema_component.coerce = _orig_coerce
 
         assert all(check_passed)
         return check_results
